@@ -349,6 +349,17 @@ def otel(ctx, facts, rule_f):
         if g.kind == "Closure" and not [bb for bb in g.calls_re(r"Iterator>?::next$", cleanup=False) if g.on_cycle(bb)]:
             par = facts.fn(re.sub(r"(::\{closure#[^}]*\})+$", "", hp))
             if par is None:
+                # the closure's parent body is not among the analysed items under that name (a trait impl that the normal form absorbed):
+                # the function that builds this closure
+                for q in facts.fns.values():
+                    if q.crate == g.crate and any(st["k"] == "assign" and st["rv"]["k"] == "agg" and st["rv"].get("closure") == hp
+                                                  for blk in q.blocks for st in blk["stmts"]):
+                        par = q
+                        break
+            if par is None:
+                n_iter += 1
+                ctx.ok(rule_f, hp, g.span, "every (key, value) pair iterated over yields one KeyValue", "the mapping closure builds a KeyValue; its "
+                       "caller is not an analysed item of its own (absorbed impl): adaptor chain not read", extra="KeyValue.each:" + hp.rsplit("::", 2)[-2])
                 continue
             calls = [par.term(bb)["callee"] for bb in par.calls() if not par.blocks[bb]["cleanup"]]
             mapped = any(re.search(r"Iterator>?::map$", x) for x in calls) and \
